@@ -103,11 +103,30 @@ HYGIENE_RE = re.compile(r"\b(Admitted|admit|Axiom|Axioms|Parameter|Parameters|Co
 
 
 def strip_coq_comments(s):
+    """remove (* ... *) comments (nested), leaving string literals alone (a literal may contain "(*")"""
     out = []
     depth = 0
     i = 0
+    in_str = False
     while i < len(s):
-        if s.startswith("(*", i):
+        c = s[i]
+        if in_str:
+            if depth == 0:
+                out.append(c)
+            if c == '"':
+                if s.startswith('""', i):       # escaped quote inside a literal
+                    if depth == 0:
+                        out.append('"')
+                    i += 2
+                    continue
+                in_str = False
+            i += 1
+        elif c == '"':
+            in_str = True
+            if depth == 0:
+                out.append(c)
+            i += 1
+        elif s.startswith("(*", i):
             depth += 1
             i += 2
         elif s.startswith("*)", i) and depth > 0:
@@ -115,7 +134,7 @@ def strip_coq_comments(s):
             i += 2
         else:
             if depth == 0:
-                out.append(s[i])
+                out.append(c)
             i += 1
     return "".join(out)
 
@@ -265,6 +284,12 @@ def build_all(verbose=False, force=False):
             st.harness_log += "\nopgen: " + out[-2000:]
         rc2, out2 = sh(["go", "build", "-o", os.path.join(BUILD, "opgen_plain"), "./cmd/opgen"],
                        cwd=REPO, env=GOENV, timeout=600)
+        # warm the model's cache of the two shipped lists (the model's own quadratic normalisation, run once)
+        if st.model_ok:
+            t1 = time.time()
+            run_model(["x cli 2 776f726473 2d2d73697a653d31 0 ascii 1 0000000000000000 0",
+                       "y cli 3 776f726473 2d2d6c6973743d73796c6c61626c6573 2d2d73697a653d31 0 ascii 1 0000000000000000 0"], timeout=900)
+            say("list cache: %.1fs" % (time.time() - t1))
         st.ok = bool(st.translator_ok and st.coq_ok and st.model_ok and st.harness_ok and not st.hygiene)
         st.wall_s = time.time() - t0
         json.dump(st.to_dict(), open(stpath, "w"), indent=1)
@@ -310,7 +335,10 @@ def run_impl(lines, timeout=1800):
 
 
 def run_model(lines, timeout=1800):
-    return run_lines(os.path.join(BUILD, "modelrun"), lines, timeout)
+    cache = os.path.join(BUILD, "cache")
+    os.makedirs(cache, exist_ok=True)
+    env = dict(os.environ, VERIF_CACHE_DIR=cache, SPG_LISTS_DIR=os.path.join(REPO, "testdata"))
+    return run_lines(os.path.join(BUILD, "modelrun"), lines, timeout, env=env)
 
 
 def hx(b):
